@@ -18,35 +18,91 @@ POSITIVE: list[tuple[str, str, str]] = [
 ]
 
 
-def _rebuilt_before(fn: ast.FunctionDef, uses: list[ast.Call], db: str, panel_is_column: bool, prepares: tuple[str, ...] = (), new_helpers=()) -> tuple[bool | None, str]:
+def _new_names(prog) -> set[str]:
+    """the names of the functions and methods (of any class) that the reference tree does not have: what a call by such a name does is in its body"""
+    return {f.name for f in prog.all_functions(with_transparent=True) if getattr(f.node, '_verif_new_helper', False)}
+
+
+def _calls_rebuild(prog) -> set[str]:
+    """the names of the functions of the tree that call build_panel_map themselves (Database.panel, ...): a call by such a name may be the rebuild"""
+    return {f.name for f in prog.all_functions(with_transparent=True)
+            if f.name != 'build_panel_map' and any(isinstance(c, ast.Call) and call_name(c) == 'build_panel_map' for c in walk_no_nested(f.node))}
+
+
+def _method_rebuilds(prog, name: str, panel_is_column: bool) -> bool:
+    """the one method of that name, new with respect to the reference tree, rebuilds the map of its own object on every path to its normal exit when the
+    data is panel (`self.build_panel_map()`, under `if self.is_panel()` or not)"""
+    from .c04 import Flow, _reached_without
+
+    ms = [f for f in prog.all_functions(with_transparent=True) if f.name == name]
+    if len(ms) != 1 or ms[0].cls is None or ms[0].cls.name != 'Database' or not getattr(ms[0].node, '_verif_new_helper', False):
+        return False
+    fn = ms[0].node
+    if any(isinstance(d, (ast.FunctionDef, ast.AsyncFunctionDef, ast.Lambda)) and d is not fn for d in ast.walk(fn)) or any(isinstance(d, (ast.Yield, ast.YieldFrom)) for d in ast.walk(fn)):
+        return False
+    flow = Flow(fn, panel_is_column)
+    pts = [c for c in walk_no_nested(fn) if isinstance(c, ast.Call) and unparse(c.func) == 'self.build_panel_map']
+    if not pts:
+        return False
+    g, _ = flow.under({'self.is_panel()': True})
+    points = {x for r in pts for x in flow.at(r)}
+    return bool(points) and 1 in g and not _reached_without(g, 1, points)
+
+
+def _rebuilt_before(fn: ast.FunctionDef, uses: list[ast.Call], db: str, panel_is_column: bool, prepares: tuple[str, ...] = (), new_helpers=(), prog=None) -> tuple[bool | None, str]:
     """(verdict, reason): on panel data every use of the individual map in fn comes after a rebuild of it.  True: every path to every use passes
-    `<db>.build_panel_map()` (or one of `prepares`, the methods that do just that), the tests that depend on the data being panel taken as true and the
-    tests that guard the use as holding.  False: some path reaches a use and no rebuild stands on it, or the rebuild is skipped when a map exists
-    already.  None: a rebuild stands under tests (in loops, in new helpers) the rule cannot relate to the use."""
+    `<db>.build_panel_map()` (or one of `prepares`, the methods that do just that; or a new method of the database that does it on all its paths), the
+    tests that depend on the data being panel taken as true and the tests that guard the use as holding.  False: some path reaches a use and no rebuild
+    stands on it, or the rebuild is skipped when a map exists already, while every call on the path is a function of the reference tree that does not
+    rebuild.  None: a rebuild stands under tests (in loops, in new functions or methods, of whatever class) the rule cannot relate to the use."""
     from .c04 import Flow, _reached_without
 
     flow = Flow(fn, panel_is_column)
-    rebuilds = []
+    new_names = set(new_helpers) | (_new_names(prog) if prog is not None else set())
+    may_rebuild = (_calls_rebuild(prog) if prog is not None else set()) - set(prepares)
+    rebuilds, opaque = [], []
     for c in walk_no_nested(fn):
-        if isinstance(c, ast.Call) and isinstance(c.func, ast.Attribute):
+        if not isinstance(c, ast.Call):
+            continue
+        nm = call_name(c)
+        if isinstance(c.func, ast.Attribute):
             recv = unparse(inline_locals(fn, c.func.value))
             if (c.func.attr == 'build_panel_map' and recv == db) or (recv == 'self' and c.func.attr in prepares):
                 rebuilds.append(c)
-    # a function the reference tree does not have and that was not expanded where it is called may be the rebuild
-    opaque = [c for c in walk_no_nested(fn) if isinstance(c, ast.Call) and call_name(c) in new_helpers]
+                continue
+            if recv == db and nm in new_names and prog is not None and _method_rebuilds(prog, nm, panel_is_column):
+                rebuilds.append(c)
+                continue
+        # a function the reference tree does not have and that was not expanded where it is called may be the rebuild; so may a function of the
+        # tree that rebuilds the map of some database itself
+        if nm in new_names or nm in may_rebuild or nm == 'build_panel_map':
+            opaque.append(c)
+    # (a closure or a lambda of the function that can rebuild runs where it is called)
+    for d in walk_no_nested(fn):
+        if d is not fn and isinstance(d, (ast.FunctionDef, ast.AsyncFunctionDef, ast.Lambda)):
+            if any(isinstance(c, ast.Call) and (call_name(c) in new_names or call_name(c) in may_rebuild or call_name(c) in prepares or call_name(c) == 'build_panel_map') for c in ast.walk(d)):
+                name_ = getattr(d, 'name', None)
+                opaque += [c for c in walk_no_nested(fn) if isinstance(c, ast.Call) and (name_ is None or (isinstance(c.func, ast.Name) and c.func.id == name_))]
     verdict, reason = True, ''
     for u in uses:
         facts = flow.guards(u)
         facts.setdefault(f'{db}.is_panel()', True)
         g, undecided = flow.under(facts)
         at_u = flow.at(u)
+        # (what stands among the arguments of the use is evaluated before the use)
+        inside = {id(x) for a_ in list(u.args) + [k.value for k in u.keywords] for x in ast.walk(a_)}
+        if any(id(r) in inside for r in rebuilds):
+            continue
+        if any(id(c) in inside for c in opaque):
+            verdict, reason = None, 'a function the rule does not follow is called among the arguments of the use'
+            continue
         points = {x for r in rebuilds for x in flow.at(r)} - set(at_u)
         if at_u and not any(_reached_without(g, b, points) for b in at_u):
             continue
         holders = flow.holders(rebuilds, undecided)
         # an `if` that reads the map itself to decide whether to rebuild it takes the existence of a map for its being up to date
         stale = {x: i for x, i in holders.items() if isinstance(i, ast.If) and re.search(r'\b(individualMap|fullIndividualMap)\b', unparse(inline_locals(fn, i.test)))}
-        maybe = (set(holders) - set(stale)) | {x for c in opaque for x in flow.at(c)}
+        maybe = (set(holders) - set(stale)) | ({x for c in opaque for x in flow.at(c)} - set(at_u))
         if not at_u:
             verdict, reason = None, 'the statement of the use is not in the graph of the function'
         elif any(_reached_without(g, b, points | set(holders) | maybe) for b in at_u):
@@ -154,7 +210,7 @@ self.individualMap = pd.DataFrame(_M).T
         if not uses:
             ctx.add('C09.R2', f'BIOGEME.{name}:rebuild', None, f, f'BIOGEME.{name}: the call that makes the engine read the panel map is not in a form the rule understands', 'rebuild')
             continue
-        ok, why = _rebuilt_before(f.node, uses, 'self.database', panel_is_column, prepares=('_prepare_database_for_formula',), new_helpers=new_methods)
+        ok, why = _rebuilt_before(f.node, uses, 'self.database', panel_is_column, prepares=('_prepare_database_for_formula',), new_helpers=new_methods, prog=prog)
         ctx.add('C09.R2', f'BIOGEME.{name}:rebuild', ok, f, 'the panel map is rebuilt before the engine uses it' if ok else (f'BIOGEME.{name} uses the panel map without rebuilding it first: {why}' if ok is False
                 else f'BIOGEME.{name}: whether the panel map is rebuilt before the engine uses it is not decided: {why}'), 'rebuild', positive=ok is False)
     pd_ = B.methods.get('_prepare_database_for_formula')
@@ -182,7 +238,7 @@ if the_expression.embed_expression('PanelLikelihoodTrajectory'):
     hand = [c for c in walk_no_nested(calc.node) if isinstance(c, ast.Call) and call_name(c) == 'setDataMap']
     new_functions = {m.name for m in calc.module.functions.values() if getattr(m.node, '_verif_new_helper', False) and not getattr(m.node, '_verif_transparent', False)}
     for h in hand:
-        fresh, why = _rebuilt_before(calc.node, [h], 'database', panel_is_column, new_helpers=new_functions)
+        fresh, why = _rebuilt_before(calc.node, [h], 'database', panel_is_column, new_helpers=new_functions, prog=prog)
         ctx.add('C09.R2', 'calculator:rebuild', fresh, (calc.file, h.lineno), 'the individual map is rebuilt on every path that hands it to the engine' if fresh
                 else (f'the individual map is handed to the engine on a path that does not rebuild it ({why}): after a change of the rows (remove, sampling) the engine multiplies over the rows of a stale map' if fresh is False
                       else f'whether the individual map is rebuilt on every path that hands it to the engine is not decided: {why}'), 'rebuild', positive=fresh is False)
